@@ -28,7 +28,7 @@ CLAIMS = {
  "C03": dict(
    category="model_checking", design_ref="DESIGN.md §6 C03",
    technique='TLA+ predicate StructValid evaluated by TLC on the facts read through the public accessors of every successfully decoded geometry (normal and skip-transform decodes) of the round-trip campaigns',
-   text='Decoded geometries of valid streams over the whole option space are checked for face indices < num_points, mapped indices < size, storage >= size x stride. (Corrupted streams are added by the C02 campaign.)',
+   text='Decoded geometries of valid streams over the whole option space are checked for face indices < num_points, mapped indices < size, storage >= size x stride. Corrupted streams: every probe of the C02 fault enumeration that decodes successfully is validated too and read through all accessors under ASan.',
    note="Trusted: TLC; the driver's projection of geometries to value ids (bit patterns -> ids through one dictionary per attribute; quantised attributes through draco's own Quantizer / octahedron tool box as the definition of the declared quantisation); big geometries are compared through 30-bit triangle / point hashes."),
  "C06": dict(
    category="model_checking", design_ref="DESIGN.md §6 C06",
@@ -80,6 +80,31 @@ CLAIMS = {
    technique="TLA+ transcription of the metadata encoder recursion and the decoder's explicit stack model-checked by TLC on 63 430 trees x 5 attribute-metadata lists (RoundTrip); every tree replayed through the real MetadataEncoder/Decoder (bytes compared) and a sample through the full codec; random large trees; TLC validates Level A on every observation",
    text='B => A exhaustive on the bounded tree domain; code = B on all rows; full-codec path for all four methods incl. attribute metadata keyed by unique id.',
    note='Trusted: TLC; values > 48 bytes compared through (length, hash).'),
+ "C02": dict(
+   category="fault_enumeration", design_ref="DESIGN.md §6 C02",
+   technique='fault enumeration over the frozen corpus (every truncation, byte / 32-bit / varint patterns per offset, header and version rewrites, multi-site, splices) decoded through all public entry points under ASan+UBSan with a fork server; TLC (Trace_Fault) validates the Status / termination / input-untouched clauses on the recorded probes',
+   text='Each (stream, fault) pair is one probe attributed exactly; the only tolerated abnormal exit is an allocation failure; sanitizer reports, signals, hangs, uncaught exceptions and modified inputs are violations. Semantic (symbol-level) faults are covered through corrupted valid streams, not yet through TLC-enumerated symbol strings.',
+   note="Trusted: ASan/UBSan (memory safety, UB), the fork server's attribution, TLC for the record-level clauses. NDEBUG configuration."),
+ "C14": dict(
+   category="model_checking", design_ref="DESIGN.md §6 C14",
+   technique='TLA+ Level-A relations of module MeshOps (triangle bag with orientation, no duplicate values/points, idempotence, documented clean-up removals, strip decoding) evaluated by TLC on recorded runs of the real builders, deduplication, MeshCleanup (8 option subsets) and MeshStripifier (both modes) over an exhaustive small soup domain and random soups',
+   text='All soups of <=2 (3) faces over 4 position values with attribute variants are executed, a seeded sample and all random soups are validated by TLC.',
+   note="Trusted: TLC; the driver's bit-pattern -> id projection."),
+ "C15": dict(
+   category="model_checking", design_ref="DESIGN.md §6 C15",
+   technique="TLC validates recorded write->read round trips through the real OBJ/PLY/STL encoders/decoders and through the draco_encoder/draco_decoder binaries: same attributes, same bag of triangles of per-corner value tuples (point set for clouds), residual within the format's bound",
+   text='1200 (30000) API round trips per format family plus the command-line flow on generated files.',
+   note='Trusted: TLC; tolerance-based value matching in the driver (residual judged by TLC).'),
+ "C18": dict(
+   category="fault_enumeration", design_ref="DESIGN.md §6 C18",
+   technique='fault enumeration of C02 re-run with allocation accounting (global operator new/delete replaced, DRACO_VERIF_DECLARE hooks): TLC validates AllocBounded (largest request, peak, refused requests <= K0 + K*(len + declared)) on every probe; guard table model-checked by TLC (MC_Alloc)',
+   text='Every probe that requests >= 64 KiB in one piece is validated; requests above 64 MiB are refused like a failed allocation and judged against the bound with the counts declared at that moment.',
+   note="Trusted: the allocation shim (operator new only), the hooks' count reports, constants K0 = 64 MiB, K = 64."),
+ "C19": dict(
+   category="model_checking", design_ref="DESIGN.md §6 C19",
+   technique='TLC enumerates all interleavings of 2 (3) threads x 8 (5) schedule points with bounded preemptions over a spec without shared variables; every schedule is enforced on real threads through DRACO_VERIF_SCHED hooks by a cooperative scheduler; free-running stress with 2..16 threads and the same under ThreadSanitizer; TLC validates NoCrossTalk on every per-thread record',
+   text='Enforced schedules expose state that persists across stage boundaries deterministically; TSan exposes unsynchronised shared accesses; results are compared with solo runs.',
+   note='Trusted: TLC, ThreadSanitizer, the cooperative scheduler.'),
 }
 NOT_YET = "check not built yet in this round (planned in DESIGN.md §6); no claim is made until its TLA+ spec and conformance harness exist"
 
